@@ -173,7 +173,10 @@ def history_oracle(ctx):
                     return Failure("C17/threads/result-differs", "%s.%s(%s) gave %r from a worker thread, %r sequentially | specs=%s" % (label, op, short(pl), out[i], seq[i], short(specs, 400)))
         else:
             for t, op, pl, params, fresh, label, uc in plan:
+                pl_before = _snap_value(pl, {}, 0) if op == "build" else None
                 got = run_call(t, op, pl, params)
+                if op == "build" and _snap_value(pl, {}, 0) != pl_before:
+                    return Failure("C17/build-mutates-its-input", "%s.build(%s) changed the object it was given (was %s) | specs=%s" % (label, short(pl), short(pl_before, 200), short(specs, 400)))
                 f = call(fresh)
                 if not f.ok:
                     continue
@@ -207,6 +210,13 @@ def history_cases(draw, threaded=False):
     specs = []
     payloads = []
     for _ in range(nspecs):
+        if draw(st.integers(0, 7)) == 0:
+            # a construct that owns a mutable object (the Container given as default of a RawCopy region)
+            spec = ["defaultrc", draw(st.sampled_from([["int", 2, False, "b", "alias"], ["bytes", 2], ["struct", [["a", ["int", 1, False, "b", "alias"]]]]])), None]
+            spec[2] = {"int": 5, "bytes": b"ab", "struct": {"a": 1}}[spec[1][0]]
+            specs.append([spec, {}, None])
+            payloads.append((None, G.realise(spec).build(None), True))
+            continue
         spec, params, value = draw(V.cases(frag=FRAG, depth=2))
         valid = True
         try:
@@ -262,9 +272,10 @@ campaign_threads.shards = (2, 8)
 # ---------------------------------------------------------------------------------------------
 def entry_oracle(ctx):
     def oracle(case):
-        spec, params, value, data, start = case
+        spec, params, value, data, start = case[:5]
+        parse_only = len(case) > 5 and case[5]      # (relative seeks while BUILDING act on the caller's stream: a file refuses what BytesIO clamps)
         con = G.realise(spec)
-        ctx.record(case, True, ["entry/start=%d" % start])
+        ctx.record(case, True, ["entry/start=%d" % start] + (["entry/relative-seeks"] if parse_only else []))
         where = "spec=%s params=%s" % (short(spec, 400), params)
         base = call(con.parse, data, **params)
         alts = {"bytearray": call(con.parse, bytearray(data), **params), "memoryview": call(con.parse, memoryview(data), **params)}
@@ -280,6 +291,8 @@ def entry_oracle(ctx):
             for name, o in alts.items():
                 if not outcome_eq(o, base):
                     return Failure("C17/entry/parse-%s" % name.split("@")[0], "parse(bytes) -> %r, %s -> %r on %s | %s" % (base, name, o, data.hex(), where))
+            if parse_only:
+                return None
             b = call(con.build, value, **params)
             s2 = io.BytesIO(b"\x13" * start)
             s2.seek(start)
@@ -307,9 +320,52 @@ def entry_oracle(ctx):
     return oracle
 
 
+B1 = ["int", 1, False, "b", "alias"]
+
+
+@st.composite
+def relseek_cases(draw):
+    """members that move RELATIVE to where the stream stands (a terminator left unconsumed, Seek(n, 1)) inside a delimited region
+    that starts somewhere behind a header: positions inside such a region are kept in the coordinates of the outer stream"""
+    members = []
+    for i in range(draw(st.integers(2, 5))):
+        o = draw(st.sampled_from(["int", "int", "nt", "seek", "bytes"]))
+        if o == "int":
+            members.append(["i%d" % i, B1])
+        elif o == "bytes":
+            members.append(["b%d" % i, ["bytes", draw(st.integers(0, 2))]])
+        elif o == "seek":
+            members.append([None, ["seek", draw(st.sampled_from([-2, -1, 0, 1, 2])), 1]])
+        else:
+            members.append(["n%d" % i, ["nullterm", ["gbytes"], draw(st.sampled_from([b"=", b"\x00", b";;"])), draw(st.booleans()), False, draw(st.booleans())]])
+    members.append(["rest", ["gbytes"]])
+    body = draw(st.binary(min_size=0, max_size=10))
+    if draw(st.booleans()):
+        body = body[:len(body) // 2] + draw(st.sampled_from([b"=", b"\x00", b";;"])) + body[len(body) // 2:]
+    region = draw(st.sampled_from(["prefixed", "fixedsized", "nullstrip", "xor", "nullterm"]))
+    inner = ["struct", members]
+    if region == "prefixed":
+        spec, data = ["prefixed", B1, inner, False], bytes([len(body)]) + body
+    elif region == "fixedsized":
+        spec, data = ["fixedsized", len(body), inner], body
+    elif region == "nullstrip":
+        spec, data = ["nullstrip", inner, b"\xee"], body + b"\xee" * draw(st.integers(0, 2))
+    elif region == "xor":
+        spec, data = ["xor", draw(st.sampled_from([0, 0x5a])), inner], body
+    else:
+        spec, data = ["nullterm", inner, b"\xfe", False, True, True], body.replace(b"\xfe", b"\xfd") + b"\xfe"
+    nhead = draw(st.integers(0, 2))
+    if nhead:
+        spec = ["struct", [["h%d" % j, B1] for j in range(nhead)] + [["body", spec]]]
+        data = draw(st.binary(min_size=nhead, max_size=nhead)) + data
+    return [spec, {}, None, data + draw(st.binary(max_size=2)), draw(st.integers(0, 3)), True]
+
+
 @st.composite
 def entry_cases(draw):
-    spec, params, value = draw(V.cases(frag=FRAG, depth=3))
+    if draw(st.integers(0, 7)) == 0:
+        return draw(relseek_cases())
+    spec, params, value = draw(V.cases(frag=FRAG, depth=3, ntflags=True))
     try:
         data = R.ref_build(spec, value, params)
     except (R.Reject, R.ForeignError):
